@@ -152,6 +152,7 @@ func (rg *rootGeneratorPipeline) worker(ctx context.Context, wg *sync.WaitGroup,
 		case <-ctx.Done():
 			return
 		case block, ok := <-blocks:
+			verifPoint("gen.recv")
 			if !ok {
 				return
 			}
@@ -163,8 +164,10 @@ func (rg *rootGeneratorPipeline) worker(ctx context.Context, wg *sync.WaitGroup,
 				counter = newCounter()
 			)
 			for sc.Scan() {
+				verifPoint("gen.line")
 				currentNode, err := rg.nodeGenerator.generate(sc.Text(), counter.next())
 				if err != nil {
+					verifPoint("gen.err")
 					errc <- err
 					return
 				}
@@ -180,16 +183,19 @@ func (rg *rootGeneratorPipeline) worker(ctx context.Context, wg *sync.WaitGroup,
 				}
 
 				if nodes == nil {
+					verifPoint("gen.err")
 					errc <- errNilStack
 					return
 				}
 
 				if !nodes.dfs(currentNode) {
+					verifPoint("gen.err")
 					errc <- &inputFormatError{row: sc.Text()}
 					return
 				}
 			}
 			if err := sc.Err(); err != nil {
+				verifPoint("gen.err")
 				errc <- err
 				return
 			}
